@@ -87,7 +87,7 @@ def run_case(c):
                 ev['obs'] = o
         elif op == 'str':
             text = ''.join(chr(x) for x in c['codes'])
-            cls = Quantity if c['cls'] == 'Quantity' else getattr(P, c['cls'])
+            cls = Quantity if c['cls'] == 'Quantity' else (getattr(P, c['cls'], None) or Unit('bq').qty_cls)
             try:
                 ev['obs'] = obs_q(cls(text))
             except Exception as exc:
